@@ -342,6 +342,7 @@ FIT_CALLS = [(r'^operator\[\]\|.*\|std::vector<(\(anonymous namespace\)::)?cache
              (r'^operator<\|.*\|' + FIT_PAIR, 'nv_pair_lt'),            # std::pair relational operator: lexicographic
              (r'^operator\(\)\|typename tbase::tconstref \(const nano::tensor_size_t\) const\|', '{0}.p[{1}]'),
              (r'^operator=\|.*\|Eigen::ArrayWrapper<Eigen::Map<Eigen::Matrix<double', 'nv_row_store({0}, {1}, cache)'),
+             (r'^operator\*\|.*\|double\|#2$', 'nv_coef_scaled({0}, {1}, cache)'),      # scalar * tables.array(r)
              (r'^sort\|', 'nv_sort({0}, {1}, &self->m_ivalues)'), (r'^make_tuple\|', '(struct nv_tuple2){ {0}, {1} }')]
 FIT_MEMBERS = [(r'^clear\|(\(anonymous namespace\)::)?cache_t', 'nv_cache_clear({self})'),
                (r'^clear\|nano::wlearner::accumulator_t\|#0', 'nv_acc_clear'), (r'^clear\|std::vector<' + FIT_PAIR, 'nv_ivec_clear'),
@@ -354,6 +355,9 @@ FIT_MEMBERS = [(r'^clear\|(\(anonymous namespace\)::)?cache_t', 'nv_cache_clear(
                (r'^array\|nano::tensor_t<nano::tensor_vector_storage_t, double, 4>', 'nv_t4_array({self}, {&0}, {0})'),   # (where the row index is read from, its value)
                (r'^square\|Eigen::ArrayBase<Eigen::ArrayWrapper<', 'nv_square({*self})'), (r'^sum\|Eigen::DenseBase<Eigen::CwiseUnaryOp<Eigen::internal::scalar_square_op', 'nv_sqsum({*self})'),
                (r'^score\|(\(anonymous namespace\)::)?cache_t', 'nv_candidate({self}, NV_SIDE_NONE, 0.0, 0, {0}, {1}, {2})'),
+               (r'^score_neg\|(\(anonymous namespace\)::)?cache_t\|#4', 'nv_candidate({self}, NV_SIDE_NEG, {0}, 1, {1}, {2}, {3})'),
+               (r'^score_pos\|(\(anonymous namespace\)::)?cache_t\|#4', 'nv_candidate({self}, NV_SIDE_POS, {0}, 1, {1}, {2}, {3})'),
+               (r'^beta_neg\|', 'nv_coef_of_t({self}, NV_SIDE_NEG, {0})'), (r'^beta_pos\|', 'nv_coef_of_t({self}, NV_SIDE_POS, {0})'),
                (r'^output_neg\|', 'nv_coef_of({self}, NV_SIDE_NEG)'), (r'^output_pos\|', 'nv_coef_of({self}, NV_SIDE_POS)')]
 
 
@@ -468,7 +472,7 @@ def build(tier):
                calls=[(r'^max\|const double &\(const double &, const double &\)', 'nv_max_d({0}, {1})'), (r'^epsilon\|', '(NV_EPS)'),
                       (r'^AIC\|', 'nv_AIC'), (r'^AICc\|', 'nv_AICc'), (r'^BIC\|', 'nv_BIC')])
     targets.append(Target('make_score', [score], 'specs/C10/criterion.h'))
-    for cls in ('stump',):
+    for cls in ('stump', 'hinge'):
         f = fit_fns(cls)
         targets.append(Target(f'{cls}_cache_clear', [f['clear']], 'specs/C10/fit.h', defines=['NV_FIT_CLEAR']))
         targets.append(Target(f'{cls}_fit_sweep', [f['sweep']], 'specs/C10/fit.h'))
